@@ -15,8 +15,11 @@ import os, sys, json, time, re, subprocess, importlib, traceback, multiprocessin
 from . import common
 from .common import VERIF, LEAN_DIR, jdump
 
-EVID_DIR = os.path.join(VERIF, "evidence")
-WORK_DIR = os.path.join(VERIF, "work")
+# VERIF_OUT redirects the evidence / work directories (used by tools/mutation_run.py to run several changed trees side
+# by side); the registered checks never set it
+_OUT = os.environ.get("VERIF_OUT")
+EVID_DIR = os.path.join(_OUT, "evidence") if _OUT else os.path.join(VERIF, "evidence")
+WORK_DIR = os.path.join(_OUT, "work") if _OUT else os.path.join(VERIF, "work")
 ALLOWED_AXIOMS = {"propext", "Classical.choice", "Quot.sound"}
 FORBIDDEN = re.compile(r"\b(sorry|admit|native_decide|bv_decide|implemented_by)\b|^\s*axiom\s|\bunsafe\s|maxHeartbeats\s+0")
 
@@ -30,6 +33,8 @@ BASE_TRUSTED = [
 
 
 def ncpu():
+    if os.environ.get("VERIF_NCPU"):
+        return max(1, int(os.environ["VERIF_NCPU"]))
     try:
         return max(1, min(16, len(os.sched_getaffinity(0))))
     except Exception:
@@ -213,7 +218,12 @@ def run_check(modname, tier, seed, replay=None):
     violations = 0
 
     # ---- stage A
-    sa = stage_a(prop, mod.LEAN_MODULE, mod.THEOREMS, lines)
+    if os.environ.get("VERIF_SKIP_STAGE_A"):
+        # mutation sweeps only (tools/mutation_run.py): correspondence and monitors alone, no verdict is registered
+        sa = {"ok": True, "obligations": len(mod.THEOREMS), "discharged": 0, "failures": [], "axioms": {},
+              "kernel_extraction": "skipped (VERIF_SKIP_STAGE_A)", "build_s": 0}
+    else:
+        sa = stage_a(prop, mod.LEAN_MODULE, mod.THEOREMS, lines)
     proof_broken = not sa["ok"]
     lc = None
     if tier == "thorough" and sa["ok"]:
